@@ -591,6 +591,21 @@ func (e *Env) call(x *ECall) (Val, types.Type) {
 			return mkInt(fmt.Sprintf("(scap %s)", v.T)), lenTy
 		}
 		return e.fail("cap of %s", ty)
+	case "sent", "recvd", "lastsent":
+		// ghost channel counters: completed sends / receives on this channel, last value sent
+		v, ty := arg(0)
+		ct, ok := ty.Underlying().(*types.Chan)
+		if !ok {
+			return e.fail("%s() needs a channel", x.Fun)
+		}
+		sent, last, recvd := t.chanVars(ty)
+		switch x.Fun {
+		case "sent":
+			return Val{T: fmt.Sprintf("(select %s %s)", t.get(e.st, sent.Name), v.T)}, tInt
+		case "recvd":
+			return Val{T: fmt.Sprintf("(select %s %s)", t.get(e.st, recvd.Name), v.T)}, tInt
+		}
+		return Val{T: fmt.Sprintf("(select %s %s)", t.get(e.st, last.Name), v.T)}, ct.Elem()
 	case "allocated":
 		// the reference existed when this state was taken (fresh allocations are distinct from it)
 		v, _ := arg(0)
